@@ -199,13 +199,19 @@ def as_index_list(arr, n):
 class V10(V):
     """V that records at most one violation per finding class per case (so class counts are case counts)."""
 
-    __slots__ = ("seen",)
+    __slots__ = ("seen", "suffix")
 
     def __init__(self, pid):
         V.__init__(self, pid)
         self.seen = set()
+        self.suffix = ""
+
+    def ok(self, cond, finding, msg=""):
+        return V.ok(self, cond, finding + self.suffix if not cond else finding, msg)
 
     def fail(self, finding, msg="", counted=False):
+        if self.suffix and not finding.endswith(self.suffix):
+            finding = finding + self.suffix
         if finding in self.seen:
             if not counted:
                 self.checks += 1
@@ -229,8 +235,30 @@ def run_case(case):
     v = V10(ID)
     m, geo = mask_of(case)
     geo = [float(g) for g in geo]
-    H, W = m.shape
     mask = aa.Mask2D(mask=m.copy(), pixel_scales=(geo[0], geo[1]), origin=(geo[2], geo[3]))
+    _check_mask(aa, exc, v, mask, m, geo, case, "")
+    keep = (v.nontrivial, v.outcome)
+    # ---- history: views were read on `mask`; a copy of it, then the mask object itself, is edited in place (one more pixel
+    # masked) and every view is read again: each must describe the edited mask, not the mask as it was first read
+    u = np.argwhere(~m)
+    if case[0] == "m" and len(u) >= 2 and m.size <= 9:
+        y0, x0 = (int(t) for t in u[len(u) // 2])
+        m2 = m.copy()
+        m2[y0, x0] = True
+        ed = mask.copy()
+        ed[y0, x0] = True
+        v.suffix = ":after-edit-of-copy"
+        _check_mask(aa, exc, v, ed, m2, geo, case, "")
+        mask[y0, x0] = True
+        v.suffix = ":after-in-place-edit"
+        _check_mask(aa, exc, v, mask, m2, geo, case, "")
+        v.suffix = ""
+    v.nontrivial, v.outcome = keep
+    return v.result()
+
+
+def _check_mask(aa, exc, v, mask, m, geo, case, _unused):
+    H, W = m.shape
 
     px = ref_unmasked(m)
     n = len(px)
